@@ -22,6 +22,8 @@ Lemma FINALIZE_not_EXTERN : FINALIZE_BIT <> EXTERN_BIT. Proof. vm_compute. discr
 Lemma auto_leaf_off : AUTO_LEAF_ON_REGISTER = false. Proof. reflexivity. Qed.
 Lemma scan_size_test_on : SCAN_SIZE_TEST = true. Proof. reflexivity. Qed.
 Lemma resize_before_step : RESIZE_BEFORE_STEP = true. Proof. reflexivity. Qed.
+(* GC:destroy sweeps again while finalizers keep registering blocks (2edb035) *)
+Lemma destroy_resweeps : (2 <= DESTROY_SWEEPS)%nat. Proof. vm_compute. repeat constructor. Qed.
 Lemma WORD_SIZE_pos : 0 < WORD_SIZE. Proof. vm_compute. reflexivity. Qed.
 
 (* ---------- flags ---------- *)
